@@ -17,6 +17,7 @@ SEEDS = {
     'C16-merge-nonobject-member-asis': ('C16', 'mergepatch'),
     'C15-move-definite-path-early': ('C15', 'jsonpatch'),
     'C06-write-string-textmap-size': ('C06', 'cbor_strref'),
+    'C08-cbor-bytestring-strref-gt': ('C08', 'cbor_strref'), 'C03-escape-u8-saved-state': ('C03', 'json_string'), 'C10-source-reader-unread': ('C10', 'source_reader'),
     'C03-fals-cursor-mode': ('C03', 'json_literals'), 'C04-grisu-boundary-shift': ('C04', 'grisu'), 'C10-source-reader-claimed-length': ('C10', 'source_reader'),
 }
 only = sys.argv[1:]
